@@ -69,6 +69,10 @@ CHARS = "aZ0_'\"-;:,()*/\n \t.=<>[]\\\x00é!\x0c\x0b\xa0\u2028$#@"
 REDOS_OPEN = ['"', "'", '/*', '//', '(', '[', 'x = "', "select any a related by b->C[R1.'", '1.', '1e', 'a::', 'end ']
 REDOS_UNIT = ['\\', '\\"', 'a', '*', '* ', '/', '\n', '\r\n', ' ', '\t', '.', '1', 'e+', '::', "''", '*/ /*', 'end\n']
 REDOS_N = [12, 17, 22, 30, 40]
+# single tokens of extreme length in an otherwise valid statement (number, real, identifier, string, parentheses)
+HUGE = ['x = ' + '7' * 5000 + ';', 'x = 1.' + '7' * 5000 + ';', 'x = 0' * 1 + '9' * 4400 + ' + 1;', 'y' * 6000 + ' = 1;',
+        'x = "' + 'a' * 50000 + '";', 'x = ' + '(' * 800 + '1' + ')' * 800 + ';', 'x = -' + '8' * 4301 + ';',
+        "select any a related by b->C[R" + '1' * 4400 + "];"]
 WS = ' \t\n\r'
 
 EXPR = ('BinaryOperationNode', 'UnaryOperationNode', 'IntegerNode', 'RealNode', 'StringNode', 'BooleanNode',
@@ -301,7 +305,7 @@ class OalFaultEngine(Engine):
                     for u in range(len(REDOS_UNIT)):
                         if tier != 'quick' or (o + u + b // 8) % 3 == 0:
                             redos.append({'k': 'redos', 'o': o, 'u': u, 'n': n})
-            ops = redos + ops
+            ops = redos + [{'k': 'huge', 'i': i} for i in range(len(HUGE))] + ops
         cfg = {'body': name, 'e2e': 1.0 if mode == 2 else 0.04, 'route_seed': rng.getrandbits(32),
                'meter_every': 17, 'slow_s': self.SLOW_S, 'fresh_parser_every': 50}
         return {'prop': prop, 'engine': self.name, 'seed': seed, 'cfg': cfg, 'ops': ops}
@@ -344,6 +348,8 @@ class OalFaultEngine(Engine):
                 k = op['k']
                 if k == 'none':
                     text = body
+                elif k == 'huge':
+                    text = HUGE[op['i'] % len(HUGE)]
                 elif k == 'redos':
                     head = body[:body.find(';') + 1] if ';' in body[:200] else ''
                     text = head + '\n' + REDOS_OPEN[op['o']] + REDOS_UNIT[op['u']] * op['n']
